@@ -231,7 +231,7 @@ class Histogram1D(ObjectWithBinning, HistogramBase):
         underflow = np.nan
         overflow = np.nan
         keep_missed = False
-        if isinstance(index, int):
+        if isinstance(index, (int, np.integer)):
             return self.bins[index], self.frequencies[index]
         if isinstance(index, (list, np.ndarray)):
             index_array = np.asarray(index)
